@@ -314,6 +314,9 @@ class SymArray(_np.ndarray):
             kw.pop('casting', None)
             if kw:
                 raise Inconclusive("ufunc keyword %s not modelled" % list(kw))
+            if ufunc.__name__ == 'clip' and len(inputs) == 3:
+                # numpy.clip(a, lo, hi) == minimum(maximum(a, lo), hi)  (numpy documentation)
+                return apply_ufunc(_np.minimum, apply_ufunc(_np.maximum, inputs[0], inputs[1]), inputs[2])
             return apply_ufunc(ufunc, *inputs)
         if method == 'reduce':
             (a,) = inputs
@@ -1029,6 +1032,17 @@ logical_not = _unary(_np.logical_not)
 negative = _unary(_np.negative)
 square = _unary(_np.square)
 minimum = _binary(_np.minimum)
+
+
+def clip(a, a_min=None, a_max=None, out=None, **kw):
+    if out is not None or kw:
+        raise Inconclusive("numpy.clip with out= / keywords is not modelled")
+    r = a
+    if a_min is not None:
+        r = maximum(r, a_min)
+    if a_max is not None:
+        r = minimum(r, a_max)
+    return r
 maximum = _binary(_np.maximum)
 power = _binary(_np.power)
 add = _binary(_np.add)
@@ -1217,7 +1231,7 @@ def make_module(overrides=None):
     g = globals()
     for name in ['zeros', 'ones', 'zeros_like', 'array', 'asarray', 'float64', 'int32', 'isscalar', 'isreal',
                  'sqrt', 'log10', 'log', 'absolute', 'isnan', 'isinf', 'isfinite', 'floor', 'ceil', 'sign',
-                 'logical_not', 'negative', 'square', 'minimum', 'maximum', 'power', 'add', 'subtract', 'multiply',
+                 'logical_not', 'negative', 'square', 'minimum', 'maximum', 'clip', 'power', 'add', 'subtract', 'multiply',
                  'divide', 'true_divide', 'logical_and', 'logical_or', 'less', 'greater', 'equal',
                  'where', 'hstack', 'concatenate', 'vstack', 'column_stack', 'repeat', 'logspace', 'linspace',
                  'isin', 'diagonal', 'unique', 'arange', 'seterr', 'atleast_1d', 'nonzero',
